@@ -38,11 +38,24 @@ class C09(ModelCheck):
             'distinct = distinct (program, schedule)')
     assumptions = ['accumulators return the seed\'s type', 'mean(reduce) is not applied to a key that may be empty',
                    'float results compared with relative tolerance 1e-9 against the model, exactly in the relation']
-    probe_names = ('plain_twin', 'accumulator_returns_None', 'mutating_acc', 'factory_seed', 'value_seed', 'terminator', 'empty_key', 'reused_slot', 'relation_checked',
+    probe_names = ('in_place_consumer_behind', 'plain_twin', 'accumulator_returns_None', 'mutating_acc', 'factory_seed', 'value_seed', 'terminator', 'empty_key', 'reused_slot', 'relation_checked',
                    'keys>=3', 'typed_state:int', 'typed_state:float', 'typed_state:bool')
     weights = {'filter': 5, 'map': 4, 'progress': 0}
 
     def gen_program(self, rng, tier):
+        if rng.random() < 0.06:
+            # successive lifetimes of one slot, some of them emptied by a filter, a reduced list accumulator handed to a consumer that
+            # changes it in place: what a key that received nothing emits must not be the seed object later lifetimes are copied from
+            inner = [{'op': 'map', 'fn': 'v_of'}, {'op': 'filter', 'fn': rng.choice(['is_even', 'lt5', 'ne3', 'never'])},
+                     {'op': 'scan', 'fn': rng.choice(['append', 'append_pure']), 'seed': rng.choice(['l_val', 'l_val', 'l_fac', 'l_fac9']),
+                      'reduce': True, 'term': None},
+                     {'op': 'map', 'fn': rng.choice(['l_trailer', 'l_pop'])}]
+            w = rng.randint(1, 4)
+            wrap = rng.choice([{'op': 'split', 'key': rng.choice(['rn_div3', 'rv_mod3'])}, {'op': 'roll', 'window': w, 'stride': rng.choice([w, w, w + 1])}])
+            wrap['inner'] = inner
+            if rng.random() < 0.4:
+                return [{'op': 'group_by', 'key': 'rk', 'inner': [wrap]}]
+            return [wrap]
         g = Gen(rng, weights=self.weights, max_nest=1, small=(tier == 'quick'))
         fl = Flags(deny=('time_split', 'tee_map', 'group_by', 'roll', 'split', 'progress', 'scan', 'batch', 'to_list', 'to_array'))
         prefix = [{'op': 'map', 'fn': 'v_of'}]
@@ -72,6 +85,14 @@ class C09(ModelCheck):
         if focus is None:
             focus = {'op': 'count', 'reduce': True}
         inner = prefix + [focus]
+        try:
+            from rxsim.program import check_node, Invalid
+            sf = check_node(focus, st, Flags())
+            if sf.own and sf.t == 'list' and rng.random() < 0.5:
+                # a consumer that changes the list it was handed in place (it owns it): the next lifetimes must not see that
+                inner.append({'op': 'map', 'fn': rng.choice(['l_trailer', 'l_pop'])})
+        except (Invalid, KeyError):
+            pass
         if shape < 0.45:
             return [{'op': 'group_by', 'key': rng.choice(['rk', 'rk_big', 'rk_tup']), 'inner': inner}]
         if shape < 0.65:
@@ -133,6 +154,8 @@ class C09(ModelCheck):
         ModelCheck.probe(self, case, ctx, out)
         from rxsim import funcs as F
         p = out.probes
+        if find_nodes(case['program'], lambda x: x['op'] == 'map' and x.get('fn') in ('l_trailer', 'l_pop')):
+            p['in_place_consumer_behind'] += 1
         for n in find_nodes(case['program'], lambda x: x['op'] == 'scan'):
             a = F.ACCS[n['fn']]
             if a[3]:
